@@ -227,7 +227,7 @@ fn oracle_pair(c: &PairCase, obs: &mut Obs) -> Result<(), Violation> {
 }
 
 fn oracle_spec(_c: &ByteCase, obs: &mut Obs) -> Result<(), Violation> {
-    let cur = refasm::spec_table_from_yaml("/repo/crates/asm-spec/asm.yml")
+    let cur = refasm::spec_table_from_yaml(&format!("{}/crates/asm-spec/asm.yml", option_env!("EBV_REPO_DIR").unwrap_or("/repo")))
         .map_err(|e| viol!("asm:spec-unreadable", "cannot read asm.yml: {e}"))?;
     let mut cur_sorted = cur.clone();
     cur_sorted.sort();
